@@ -12,11 +12,18 @@ from .interp import Interp, World, enumerate_paths, Raised, Infeasible
 
 
 class AlgState:
-    def __init__(self, nonzero=(), subst=()):
+    def __init__(self, nonzero=(), subst=(), modulus=None):
         self.subst = list(subst)        # (var, Rat)
         self.nonzero = list(nonzero)    # Poly
         self.zeros = []                 # equalities that could not be eliminated
         self.log = []
+        self.modulus = modulus          # a concrete prime characteristic: a constant is a unit iff it is not a multiple of it
+
+    def _unit(self):
+        if self.modulus is None:
+            return {}
+        p = self.modulus
+        return {"allow_const": lambda c: c % p != 0}
 
     def norm(self, r: Rat) -> Rat:
         r = Rat.of(r)
@@ -37,7 +44,7 @@ class AlgState:
         for z in self.zeros:
             if divide_exact(n, z) is not None:
                 return True
-        if known_nonzero(n, self.nonzero):
+        if known_nonzero(n, self.nonzero, **self._unit()):
             return False
         return None
 
@@ -52,7 +59,7 @@ class AlgState:
             cs = n.coeffs_in(v)
             if set(cs) <= {0, 1} and 1 in cs:
                 a = cs[1]
-                if known_nonzero(a, self.nonzero):
+                if known_nonzero(a, self.nonzero, **self._unit()):
                     best = (v, a, cs.get(0, Poly.const(0)))
                     break
         if best is None:
@@ -84,7 +91,7 @@ class AlgState:
         return n
 
     def copy(self):
-        s = AlgState(self.nonzero, self.subst)
+        s = AlgState(self.nonzero, self.subst, self.modulus)
         s.zeros = list(self.zeros)
         s.log = list(self.log)
         return s
